@@ -50,6 +50,9 @@ type ProbeImpl struct {
 	ValidatorYields int
 	lent            probe.LentProxy
 	lents           []probe.LentProxy
+	// OnTerm, when set, runs inside the termination hook (an object that
+	// takes other objects of the service down with it).
+	OnTerm func()
 	// RelayByID makes relay choose among all the objects lent so far: the
 	// one whose identifier is the token's nonce.
 	RelayByID bool
@@ -68,8 +71,12 @@ func (p *ProbeImpl) Activate(a bus.Activation, h probe.ProbeSignalHelper) error 
 func (p *ProbeImpl) OnTerminate() {
 	p.mu.Lock()
 	p.Terms++
+	hook := p.OnTerm
 	p.mu.Unlock()
 	p.Env.Executed("OnTerminate", p.Obj, "", "")
+	if hook != nil {
+		hook()
+	}
 }
 
 // Terminated returns how often OnTerminate ran.
